@@ -575,11 +575,14 @@ def iterLoop (o : Ops K) (h : HMap K V) : Nat → Iter K V → Nat → Option BR
         | .done =>
           iterLoop o h fuel it bucket (if hasOvf then some { br with pos := br.pos + 1 } else none) 0 cb
 
-def totalCells (a : Array (Chain K V)) : Nat := a.foldl (fun n c => n + c.length / bucketCnt + 1) 0
+/-- number of buckets (incl. overflow buckets) of an array, plus one per chain -/
+def totalCells (a : Array (Chain K V)) : Nat := (a.toList.map (fun c => c.length / bucketCnt + 1)).sum
 
+/-- fuel for one `mapiternext`: every round of `next:` enters a chain, moves to an overflow bucket or ends, so three
+    times the number of buckets of the arrays involved is plenty (`iterLoop_walk`, `iterFuel_ge` in the lemmas) -/
 def HMap.iterFuel (h : HMap K V) (it : Iter K V) : Nat :=
-  2 * (2 ^ it.B + 2) + totalCells h.buckets + totalCells (h.old.getD #[]) +
-    ((h.arrayOf it.gen).map totalCells).getD 0 + 8
+  2 * (2 ^ it.B + 2) + 3 * (totalCells h.buckets + totalCells (h.old.getD #[]) +
+    ((h.arrayOf it.gen).map totalCells).getD 0) + 8
 
 def mapiternext (o : Ops K) (h : HMap K V) (it : Iter K V) : Except Err (Iter K V) :=
   iterLoop o h (h.iterFuel it) it it.bucket it.bptr it.i it.checkBucket
